@@ -488,7 +488,8 @@ def gen(repo):
     emit("Definition predefined_command_words : list bytes := [")
     emit(";\n".join(f"  {coq_bytes(rust_str(w))} (* {w} *)" for w in words))
     emit("].")
-    m = re.search(r"let volume = min\(self\.0, (\d+)\);", ds_nontest)
+    m = (re.search(r"let volume = (?:std::cmp::|cmp::)?min\(self\.0, (\d+)\);", ds_nontest)
+         or re.search(r"let volume = self\.0\.min\((\d+)\);", ds_nontest))
     if not m:
         raise TranslatorError("SetVolume: clamp not found")
     emit(f"Definition volume_max : N := {m.group(1)}.")
